@@ -261,5 +261,15 @@ func init() {
 		Rule: "each run = 1-2 replicas with real lease election, 1-3 shards, 1-2 upstreams with a max-in-flight and optionally a token-bucket schema (global limits 1 ... 100000), 2-6+ honest instances (each echoes exactly the quota it was last answered, reports used >= 0 and RequestLevel = floor(100*used/current)), 20-80 steps of reports, limit changes through the real upstream controller (raise, lower below the allocated sum), clock advances, instances leaving and joining; after every answered report the quotas the leader has on record are read back through its exposed API; distinct = distinct trace hash; non-trivial = at least 5 answered reports from 2+ instances",
 		Real: rlReal, Stub: rlStub, Assume: append([]string{"'honest' = echoes the last answered quota, used >= 0, RequestLevel = floor(100*used/current); an instance whose record was reclaimed still echoes its last quota"}, rlAssume...),
 	})
+	reg(&Check{
+		ID:    "C13",
+		Title: "Sharding: one shard per upstream on both sides; only its leader serves it",
+		Batches: []Batch{
+			{World: "rl", Profile: "c13-nofault", Quick: 60, Thor: 3000, PerProc: 1, FaultFree: true},
+			{World: "rl", Profile: "c13-faults", Quick: 140, Thor: 7000, PerProc: 1},
+		},
+		Rule: "each run = N in {1,2,3,5} shards, 2-3 replicas with real lease election (3 s leases), store local or API-backed, 2-4 upstreams, two gateway client sets; shard function observed for odd byte strings on both sides; 20-90 steps of allocate/acquire RPCs sent to a drawn replica (leader or not), clock advances, and faults: a replica cut off from the API server (leases expire), crash, restart, gateway-replica partitions; leadership is taken in each replica's own view at the boundaries around every call; distinct = distinct trace hash; non-trivial = at least one RPC served and one refused",
+		Real: rlReal, Stub: rlStub, Assume: append([]string{"leadership in a replica's own view may overlap with another's for less than a lease under partition: the oracle does not assume a unique leader", "the range/determinism of the shard function over all names is only sampled (a pure function, see DESIGN §6)"}, rlAssume...),
+	})
 	reg(&Check{ID: "SMOKE", Title: "debug", Batches: []Batch{{World: "gw", Profile: "smoke", Quick: 1, Thor: 1, PerProc: 1}}})
 }
